@@ -849,7 +849,7 @@ pub fn c09_random_state(cx: &mut Cx) -> (BoardBuilder, &'static str) {
     let rng = &mut cx.rng;
     match rng.below(10) {
         0..=2 => (to_builder(&gen::scatter(rng)), "scatter"),
-        3 => (to_builder(&gen::pin_case(rng)), "pin-lattice"),
+        3 => (to_builder(&if rng.chance(1, 4) { gen::heavy_material_case(rng) } else { gen::pin_case(rng) }), "pin-lattice"),
         4 => (to_builder(&gen::ep_case(rng)), "ep-lattice"),
         5 => (to_builder(&if rng.chance(1, 4) { gen::dense_fragmented_case(rng) } else { gen::castle_case(rng) }), "castle-lattice"),
         _ => {
